@@ -39,15 +39,17 @@ Definition starts_dollar (s : string) : bool :=
   | _ => false
   end.
 
-(* strings.Index(path, "$"): the text before the first '$' and the text from it on *)
-Fixpoint split_dollar_go (s : string) (acc : string) : option (string * string) :=
+(* SplitDynamicPath's search: the first '$' that starts a path segment (index
+   0 or right after a '.'); the text before it and the text from it on.
+   `start` tells whether the current position starts a segment. *)
+Fixpoint split_dollar_go (s : string) (acc : string) (start : bool) : option (string * string) :=
   match s with
   | EmptyString => None
   | String c t =>
-      if Ascii.eqb c "$"%char then Some (string_rev acc, s)
-      else split_dollar_go t (String c acc)
+      if start && Ascii.eqb c "$"%char then Some (string_rev acc, s)
+      else split_dollar_go t (String c acc) (Ascii.eqb c "."%char)
   end.
-Definition split_dollar (s : string) : option (string * string) := split_dollar_go s EmptyString.
+Definition split_dollar (s : string) : option (string * string) := split_dollar_go s EmptyString true.
 
 (* s[:len(s)-1] *)
 Fixpoint drop_last (s : string) : string :=
@@ -211,16 +213,12 @@ Definition push_sort (arr : list value) (spec : value) : res (list value) :=
   | _ => Err
   end.
 
-(* the $slice step of applyPush; Go computes -int(s) and len-keep in int64 *)
+(* the $slice step of applyPush *)
 Definition push_slice (arr : list value) (s : Z) : res (list value) :=
   if s =? 0 then Ok []
   else if 0 <? s then (if s <? len arr then Ok (take s arr) else Ok arr)
-  else
-    let keep := wrap64 (- s) in
-    if keep <? len arr then
-      let start := wrap64 (len arr - keep) in
-      if (start <? 0) || (len arr <? start) then Panic else Ok (drop start arr)
-    else Ok arr.
+  else if - len arr <? s then Ok (drop (len arr + s) arr)
+  else Ok arr.
 
 (* the $position step *)
 Definition push_position (n p : Z) : Z :=
@@ -384,6 +382,10 @@ Definition apply_push : opfun := fun s ps v =>
     | Some sv => let* n := int_modifier sv in push_slice arr2 n
     end in
   let* (_, d') := Put (fst s) ps (VArr arr3) false in
+  if is_missing field then
+    (* the field has been created as a whole: record the new array *)
+    let* ch' := record (snd s) ps (VArr arr3) in Ok (d', ch')
+  else
   match pm_values m, pm_position m, pm_sort m, pm_slice m with
   | [], None, None, None => Ok (d', snd s)
   | _, _, _, _ =>
